@@ -30,6 +30,7 @@ from vf.rigs.memstore import MemStore
 from vf.runner import Ob
 
 LEVEL = "other"
+TECHNIQUE = ('CrossHair (z3) on the real bounds computation -> manifest round trip -> pruning decision with symbolic rows and literals (Arrow kernels shimmed, validated against pyarrow each run); concrete end-to-end grids as translator validation')
 EXPLANATION = (
     "Bounded symbolic execution (CrossHair/z3) of the real bounds computation, bound encode/decode, manifest "
     "entry plumbing, filter parser and pruning decision on symbolic file rows (<=3 rows incl. NULL/NaN/inf), "
